@@ -6,7 +6,6 @@ package main
 // (per-node payloads) and the loop-level half of C07.
 
 import (
-	"context"
 	"fmt"
 	"math/rand"
 	"sort"
@@ -505,7 +504,7 @@ func runQC(sh *shard, c *qcCase, expLine string, sum *sumT) {
 		}
 		return &dev.Request{Value: fmt.Sprintf("%s|0|pn%d", token, nid)}
 	}
-	ctx, cancel := context.WithCancel(context.Background())
+	ctx, cancel := newCancelCtx(c.id%2 == 1)
 	defer cancel()
 	if len(c.arr) > 0 && c.arr[0].kind == 'c' {
 		// a context end that is the first event precedes the call (the schedule the Lean driver assumes, see
